@@ -190,6 +190,63 @@ def job_geo_arith(vmax):
                 sample=dict(block=blk._src, bound=vmax), **common)
 
 
+def job_lbq(W, H, m, timeout_s=1500):
+    """__lb_q on a SYMBOLIC non-increasing list of m square sides (2..H) and symbolic q for a concrete bin W >= H: on every path
+    'exists a packing of these squares into bound-1 bins' must be unsat (sizes AND placements symbolic in one query)"""
+    import moptipyapps.binpacking2d.instance as im
+    lbq = xform.transform(getattr(im, "__lb_q"), core.install_builtins())
+    state = dict(q=[], bad=None)
+
+    def h(eng):
+        ls = [fresh_int(f"l{i}") for i in range(m)]
+        q = fresh_int("q")
+        cs = [z3.And(l.e >= 2, l.e <= H) for l in ls] + [ls[i].e >= ls[i + 1].e for i in range(m - 1)] + [q.e >= 0, q.e <= H // 2]
+        eng.assume(z3.And(*cs))
+        bound = lbq(W, H, q, list(ls))
+        eng.pending = []
+        b = lift(bound)
+        # exists packing into bound-1 bins?
+        vs = []
+        ex = [b >= 2]
+        for i, l in enumerate(ls):
+            bi, xi, yi = z3.Int(f"b{i}"), z3.Int(f"x{i}"), z3.Int(f"y{i}")
+            ex += [bi >= 1, bi <= b - 1, xi >= 0, yi >= 0, xi + l.e <= W, yi + l.e <= H]
+            vs.append((bi, xi, yi, l.e))
+        for i in range(m):
+            for j in range(i):
+                bi, xi, yi, li = vs[i]
+                bj, xj, yj, lj = vs[j]
+                ex.append(z3.Or(bi != bj, xi + li <= xj, xj + lj <= xi, yi + li <= yj, yj + lj <= yi))
+        r = backend.solve(list(eng.s.assertions()), z3.And(*ex), timeout_s=120, label=f"lbq W={W} H={H} m={m}", backends=("lia",))
+        state["q"].append(r)
+        if r.status == "unknown":
+            raise core.Abort("unknown")
+        if r.status == "sat":
+            state["bad"] = r.model
+            raise core.Abort("violated-ext")
+        return "path"
+    eng = Engine(timeout_ms=60000, deadline=time.time() + timeout_s)
+    ok = eng.explore(h)
+    q, st = util.qstats(state["q"])
+    common = dict(paths=eng.paths, queries=dict(sat=q["sat"], unsat=q["unsat"] + eng.n_unsat, unknown=q["unknown"] + eng.unknown), solver_s=round(st + eng.t_solver, 2),
+                  vacuity=dict(outcomes=eng.outcomes))
+    if state["bad"] is not None:
+        md = state["bad"]
+        ls = [int(md.get(f"l{i}", 2)) for i in range(m)]
+        rows = [[i, int(md.get(f"b{i}", 1)), int(md.get(f"x{i}", 0)), int(md.get(f"y{i}", 0)), int(md.get(f"x{i}", 0)) + ls[i], int(md.get(f"y{i}", 0)) + ls[i]] for i in range(m)]
+        nb = max(r[1] for r in rows)
+        w = dict(W=W, H=H, items=[[l, l] for l in ls], clause="not_above_feasible", packing=rows, bins=nb, q=md.get("q"))
+        bad, info = replay(w)
+        w["observed"] = info
+        if bad:
+            return violated("not_above_feasible", "binpacking2d/instance.py:__lb_q", f"L(q) bound too large: bin {W}x{H} squares {ls} q={md.get('q')}: packing into {nb} bins {rows}, {info}", w, validated=1, **common)
+        return inconclusive(f"__lb_q path bound exceeds a feasible packing for squares {ls}, q={md.get('q')} but the instance-level bound does not: {info}", **common)
+    if not ok or not eng.outcomes.get("path"):
+        return inconclusive(f"not conclusive {eng.stats()}", **common)
+    return held(summary=f"__lb_q symbolic: bin {W}x{H}, {m} squares, all q: {eng.paths} paths, no packing into bound-1 bins",
+                sample=dict(bin=[W, H], squares=m, paths=eng.paths), **common)
+
+
 def jobs(tier):
     import os
     seed = int(os.environ.get("VERIF_SEED", "0") or 0)
@@ -206,6 +263,9 @@ def jobs(tier):
     for (W, H) in bins_upto(8):
         if max(W, H) > 5:
             js.append(Job(f"exh/W{W}H{H}/3items", job_family, dict(bins=[(W, H)], n_items=3, label=f"bin {W}x{H}, all triples (both orientations)", both=True), "not_above_feasible", 900))
+    for (W, H) in [(w, h) for w in range(2, 11) for h in range(2, w + 1)] if tier == "quick" else [(w, h) for w in range(2, 17) for h in range(2, w + 1)]:
+        for m in (2, 3) + ((4,) if (W <= 7 or (tier == "thorough" and W <= 10)) else ()) + ((5,) if tier == "thorough" and W <= 6 else ()):
+            js.append(Job(f"lbq/W{W}H{H}/m{m}", job_lbq, dict(W=W, H=H, m=m), "not_above_feasible", 1700))
     if tier == "thorough":
         for (W, H) in bins_upto(6):
             if max(W, H) > 3:
@@ -226,8 +286,9 @@ def meta(tier):
     return dict(
         bounds=dict(family="exhaustive: bins W,H <= 6 with every 4-multiset of item shapes; W,H <= 8 with every triple; W,H <= 14 with every pair "
                            "(thorough: + W,H <= 6 with 5-multisets, W,H <= 20 pairs, seeded random instances up to 8 items, dims <= 20)",
-                    packings="all placements x rotations x bin assignments into lb-1 bins (solver)"),
-        outside=["larger instances", "__lb_q / __cutsq on fully symbolic inputs (not built); the published argument that CUTSQ + L(q) is valid for arbitrary items"],
+                    packings="all placements x rotations x bin assignments into lb-1 bins (solver)",
+                    lbq="__lb_q run on SYMBOLIC square lists (2-3 squares, thorough 4) and symbolic q for every bin W >= H with W <= 10 (thorough 16); 4 squares up to W <= 7 (thorough 10), 5 squares up to W <= 6 in thorough: sizes and placements symbolic in one query per path"),
+        outside=["larger instances", "__cutsq on symbolic items; the published argument that CUTSQ + L(q) is valid for arbitrary items (checked end to end on the enumerated family only)"],
         assumptions=["the instance side of the quantifier is enumerated/sampled, said so; the packing side is decided by the solver",
                      "4- and 5-multisets are enumerated up to rotation of the items (w <= h); pairs and triples in both orientations"],
         stubs=["none: the real constructor runs concretely; packing existence is a plain z3 query with a per-bin area lemma"])
